@@ -508,6 +508,125 @@ def h_chunk_any_selection(nsel, extra):
     prove("each_block_is_used_once", len(win.writes) == nsel)
 
 
+# ---- V5: a source georeferenced by control points ------------------------------------------------
+class _MapStub:
+    """stands for a fitted GCPMapping: only its CRS is looked at on this route"""
+
+    def __init__(self):
+        from odc.geo.crs import CRS
+
+        self.crs = CRS("epsg:4326")
+
+    def __dask_tokenize__(self):
+        return ("gcp-mapping-stub",)
+
+
+def h_gcp_source(nsel):
+    """a dask-backed raster georeferenced by control points goes through the same graph: no
+    refusal, the chunk's task assembles the crop spanned by the needed tiles and warps it with the
+    control-point grid of that crop (which tiles are needed comes from footprints through PROJ:
+    here a prepared list)"""
+    import numpy as real_np
+
+    import odc.geo._dask as dk
+    import odc.geo.geobox as gbx
+    from affine import Affine
+    from odc.geo.gcp import GCPGeoBox
+
+    conc = symx.concrete_mode()
+    if conc:
+        import dask.array as da
+
+        from odc.geo import geom
+        from odc.geo.gcp import GCPMapping
+        from odc.geo.xr import wrap_xr, xr_reproject
+
+        gbox0 = gbx.GeoBox.from_bbox([0, 0, 20, 10], crs="epsg:4326", resolution=1)
+        px, py = gbox0.boundary(4).T
+        pix = geom.multipoint([(float(x), float(y)) for x, y in zip(px.tolist(), py.tolist())], None)
+        gg = GCPGeoBox(gbox0.shape, GCPMapping(pix, gbox0.project(pix)))
+        data = (real_np.arange(200).reshape(10, 20) % 200 + 1).astype("uint8")
+        ra = xr_reproject(wrap_xr(data, gg, nodata=255), gbox0.pad(2)).values
+        rb = xr_reproject(wrap_xr(da.from_array(data, chunks=(5, 5)), gg, nodata=255), gbox0.pad(2), chunks=(7, 7)).values
+        prove("chunked_result_equals_whole_array_result", bool(real_np.array_equal(ra, rb)))
+        return
+
+    from ..npmodel import FakeBlock, RecArray
+
+    chy = tuple(Int(f"cy{i}", 1, 40) for i in range(3))
+    chx = tuple(Int(f"cx{i}", 1, 40) for i in range(3))
+    NY, NX = symx.s_sum(chy), symx.s_sum(chx)
+    mp = _MapStub()
+    src_g = GCPGeoBox((NY, NX), mp)
+    dst_g = gbx.GeoBox((6, 8), Affine(rconst(7), rconst(2), Real("dc"), rconst(-2), rconst(-7), Real("df")), "epsg:3857")
+    sel = []
+    for k_ in range(nsel):
+        r, c = Int(f"r{k_}", 0, 2), Int(f"q{k_}", 0, 2)
+        for r2, c2 in sel:
+            assume(Or(r != r2, c != c2))
+        sel.append((r, c))
+    selv = [(r.__index__() if isinstance(r, symx.Sym) else r, c.__index__() if isinstance(c, symx.Sym) else c) for r, c in sel]
+    offy, offx = [0], [0]
+    for v in chy:
+        offy.append(offy[-1] + v)
+    for v in chx:
+        offx.append(offx[-1] + v)
+    kk = Int("kk", 0, nsel - 1)
+    kv = kk.__index__() if isinstance(kk, symx.Sym) else kk
+    tr, tc_ = selv[kv]
+    I, J = Int("I"), Int("J")
+    assume(And(offy[tr] <= I, I < offy[tr + 1], offx[tc_] <= J, J < offx[tc_ + 1]))
+    src = _FakeSrc((chy, chx), (40, 40), "uint8")
+    saved_gi = gbx.GeoboxTiles.grid_intersect
+    saved_rr = dk._rio_reproject
+    seen = []
+
+    def rec(src_, dst_, s_gbox, d_gbox, **kw):
+        seen.append((src_, dst_, s_gbox, d_gbox, kw))
+        return dst_
+
+    gbx.GeoboxTiles.grid_intersect = lambda self, other: {(0, 0): list(selv)}
+    dk._rio_reproject = rec
+    try:
+        try:
+            out = dk._dask_rio_reproject(src, src_g, dst_g, "nearest", src_nodata=255, dst_nodata=255, chunks=(6, 8))
+        except AssertionError:
+            prove("a_control_point_source_is_not_refused", False)
+            return
+        task = out.dsk.dsk[(out.name, 0, 0)]
+        proc, yx, *bkeys = task
+        prove("dependencies_are_the_needed_tiles_in_order", [tuple(b[1:]) for b in bkeys] == selv)
+        blocks = [FakeBlock(tuple(b[1:]), (chy[b[1]], chx[b[2]]), "uint8") for b in bkeys]
+        res = proc(yx, *blocks)
+    finally:
+        gbx.GeoboxTiles.grid_intersect = saved_gi
+        dk._rio_reproject = saved_rr
+    prove("one_warp", len(seen) == 1)
+    win, c_dst, sg, dg, kw = seen[0]
+    prove("warped_into_the_chunk", isinstance(res, RecArray) and (c_dst is res or getattr(c_dst, "base", None) is res) and tuple(res.shape) == (6, 8))
+    prove("destination_grid_is_the_chunk", dg == dst_g if not isinstance(dg.affine.c, symx.Sym) else And(*[ex(a) == ex(b) for a, b in zip(tuple(dg.affine)[:6], tuple(dst_g.affine)[:6])]))
+    prove("source_grid_is_a_crop_of_the_control_point_grid", isinstance(sg, GCPGeoBox) and sg._mapping is mp)
+    A_ = sg._affine
+    x0, y0 = A_ * (0, 0)
+    prove("crop_is_a_whole_pixel_shift", And(ex(A_.a) == 1, ex(A_.e) == 1, ex(A_.b) == 0, ex(A_.d) == 0, ex(x0) == symx.s_floor(ex(x0)), ex(y0) == symx.s_floor(ex(y0))))
+    i, j = I - ex(y0), J - ex(x0)
+    prove("window_has_the_crop_shape", And(win.shape[0] == sg.shape.y, win.shape[1] == sg.shape.x))
+    prove("needed_tile_pixel_is_inside_the_window", And(0 <= i, i < win.shape[0], 0 <= j, j < win.shape[1]))
+    covs = []
+    for d_roi, b, s_roi in win.writes:
+        dy, dx = d_roi[0], d_roi[1]
+        sy, sx = s_roi[0], s_roi[1]
+        dy0 = 0 if dy.start is None else dy.start
+        dx0 = 0 if dx.start is None else dx.start
+        cov = And(dy0 <= i, i < dy.stop, dx0 <= j, j < dx.stop)
+        br, bc = b.name
+        prove(f"tile{br}{bc}:pixel_comes_from_its_own_block_at_its_own_offset",
+              And(br == tr, bc == tc_, sy.start + (i - dy0) == I - offy[tr], sx.start + (j - dx0) == J - offx[tc_]), when=cov)
+        covs.append(cov)
+    prove("needed_tile_pixel_is_written_into_the_window", Or(*covs) if covs else False)
+    prove("nodata_handed_on", kw.get("src_nodata") == 255 and kw.get("dst_nodata") == 255)
+
+
 # ---- V4: graph names ------------------------------------------------------------------------------
 def _inj_token(*args, **kw):
     """injective stand-in for dask.base.tokenize: equal tokens only for structurally equal arguments"""
@@ -656,6 +775,10 @@ OBLIGATIONS = [
        functions=("odc.geo._dask._do_chunked_reproject", "odc.geo.geobox.GeoboxTiles.clip", "odc.geo.roi.clip_tiles", "odc.geo._blocks.BlockAssembler.extract", "odc.geo.warp._rio_reproject"),
        bounds="3x3 source tiling with symbolic chunk sizes (1..40), 1..3 distinct listed tiles at symbolic positions, symbolic probed pixel; destination chunk rotated/sheared (fixed linear part), symbolic origins",
        stubs=("rasterio.warp.reproject recorder", "NumpyModel (recording full/zeros/copyto)"), setup=setup, timeout_ms=20000, deadline_s=900.0),
+    Ob("V5_gcp_source", h_gcp_source, tiered([dict(nsel=2)], [dict(nsel=1), dict(nsel=2), dict(nsel=3)]),
+       descr="a dask-backed raster georeferenced by control points: not refused; the chunk's task assembles the crop spanned by the needed tiles and warps it with the control-point grid of that crop",
+       functions=("odc.geo._dask._dask_rio_reproject", "odc.geo._dask._do_chunked_reproject", "odc.geo.geobox.GeoboxTiles.clip", "odc.geo.gcp.GCPGeoBox.__getitem__", "odc.geo._blocks.BlockAssembler.extract"),
+       bounds="3x3 source tiling with symbolic chunk sizes, 1..3 needed tiles at symbolic positions, symbolic probed pixel", stubs=("GeoboxTiles.grid_intersect returns the prepared list (PROJ footprints are outside)", "_rio_reproject recorded", "mapping stand-in"), setup=setup, timeout_ms=20000),
     Ob("V4_graph_names", h_graph_names, fixed(*[dict(vary=v) for v in ("dst_nodata", "src_nodata", "both_nodata", "resampling", "chunks", "grid")]),
        descr="two requests on the same source that differ in nodata, resampling, destination chunking or destination grid never share task keys",
        functions=("odc.geo._dask._dask_rio_reproject",), bounds="offset between the grids symbolic (fixed sizes); the differing parameter from a list", stubs=("dask.base.tokenize replaced by an injective stand-in", "dask.array.Array / HighLevelGraph recorders"), setup=setup),
